@@ -55,33 +55,6 @@ def key_pool(rng, h, klen):
     return pool
 
 
-class _Tracker:
-    """what the generator needs to know about the history so far"""
-
-    def __init__(self):
-        self.keys = set()
-        self.slots = set()
-        self.iter_live = False
-        self.can_remove = False
-        self.pending = 0
-        self.table = True
-
-
-def _iter_program(rng, tr, ops, p_remove, full=True):
-    ops.append("it_new")
-    pending = len(tr.keys)
-    steps = pending + rng.choice([1, 1, 2]) if full else rng.randint(0, pending)
-    for _ in range(steps):
-        ops.append("it_next")
-        if pending > 0:
-            pending -= 1
-            if rng.random() < p_remove:
-                ops.append("it_remove" + (" noout=1" if rng.random() < 0.2 else ""))
-                # which key disappears is decided by the table order: forget exact content,
-                # the generator only needs an upper bound of the live keys
-                tr.removed_unknown = True
-
-
 class HashTableGen:
     name = "hashtable"
     is_set = False
@@ -266,15 +239,13 @@ class HashTableGen:
                 steps = pending + rng.choice([1, 1, 2]) if full else rng.randint(0, pending)
                 p_remove = rng.choice([0.0, 0.2, 0.5, 1.0])
                 for _ in range(steps):
-                    ops.append("it_next")
+                    ops.append("it_next" + (" noout=1" if self.is_set and rng.random() < 0.1 else ""))
                     if rng.random() < p_remove:
                         ops.append("it_remove" + (" noout=1" if rng.random() < 0.2 else ""))
             elif kind == "dtab":
                 if slots and rng.random() < 0.5:
                     ops.append("destroy_table")
                     table = False
-        if focus is None or focus in ("reject", "growth", "iter", "fault"):
-            pass
         ops.append("destroy")
         return ops
 
